@@ -40,7 +40,7 @@ try:
     rc, out = sh("git apply %s" % os.path.join(d, "patch.diff"), wt); res["patch_applies"] = (rc == 0)
     if rc != 0: print(out)
     rc, out = sh("go build %s./..." % MODFLAG if not MODFLAG else "go build %s./pkg/parser/api/..." % MODFLAG, root); res["builds"] = (rc == 0)
-    pk = meta.get("packages_tested") or [pkg + "/..."]
+    pk = [re.match(r"\./[\w./-]+", x).group(0) for x in (meta.get("packages_tested") or []) if re.match(r"\./[\w./-]+", x)] or [pkg + "/..."]
     rc, out = sh("go test %s-count=1 %s" % (MODFLAG, " ".join(pk)), root); res["existing_tests_pass"] = (rc == 0)
     if rc != 0: print(out[-3000:])
     shutil.copy(os.path.join(d, "demo_test.go"), demo_dst)
